@@ -18,3 +18,11 @@ pub fn verif_i64_to_be_bytes(v: i64) -> (r: [u8; 8])
 pub fn verif_i64_from_be_bytes(b: [u8; 8]) -> (r: i64)
     ensures forall|j: int| 0 <= j < 8 ==> #[trigger] b@[j] == be_byte(r as u64, j)
 { i64::from_be_bytes(b) }
+
+// ===== i64 bit-counting functions (trusted: stated in terms of vstd's u64_leading_zeros on the bit pattern) =====
+pub assume_specification [i64::is_negative] (v: i64) -> (r: bool)
+    ensures r == (v < 0);
+pub assume_specification [i64::leading_zeros] (v: i64) -> (r: u32)
+    ensures r == vstd::std_specs::bits::u64_leading_zeros(v as u64);
+pub assume_specification [i64::leading_ones] (v: i64) -> (r: u32)
+    ensures r == vstd::std_specs::bits::u64_leading_zeros(!(v as u64));
